@@ -9,7 +9,7 @@ import ast
 import itertools
 
 from ..astutil import norm, where
-from ..flow import decision_table, inline_tail_calls
+from ..flow import decision_table, inline_tail_calls, sequential_reads as _sequential_reads
 from ..loader import AnalysisIncomplete, dotted
 
 GRID = "uxarray/grid/grid.py"
@@ -114,39 +114,6 @@ def classify_atom(atom, self_name, other_name):
         if {r1, r2} == {self_name, other_name} and p1 and p2:
             return _field_of(p1), isinstance(atom.ops[0], ast.Eq), p1 == p2
     return None
-
-
-def _sequential_reads(fnode):
-    """straight-line substitution of locals bound to attribute reads:  a = self.x; b = other.x; if not a.equals(b): ...   ->   if not self.x.equals(other.x): ...
-    (each use sees the binding that textually precedes it in the same statement list or an enclosing one)"""
-    import copy
-
-    def go(stmts, env):
-        env = dict(env)
-        out = []
-        for st in stmts:
-            class T(ast.NodeTransformer):
-                def visit_Name(self, n):
-                    if isinstance(n.ctx, ast.Load) and n.id in env:
-                        return copy.deepcopy(env[n.id])
-                    return n
-            if isinstance(st, ast.Assign) and len(st.targets) == 1 and isinstance(st.targets[0], ast.Name) and isinstance(st.value, (ast.Attribute, ast.Subscript)) \
-                    and all(isinstance(x, (ast.Attribute, ast.Name, ast.Subscript, ast.Constant, ast.expr_context)) for x in ast.walk(st.value)):
-                env[st.targets[0].id] = T().visit(copy.deepcopy(st.value))
-                continue
-            if isinstance(st, ast.If):
-                st = ast.If(test=T().visit(copy.deepcopy(st.test)), body=go(st.body, env) or [ast.Pass()], orelse=go(st.orelse, env))
-            elif isinstance(st, ast.Return) and st.value is not None:
-                st = ast.Return(value=T().visit(copy.deepcopy(st.value)))
-            elif isinstance(st, ast.Assign):
-                st = ast.Assign(targets=st.targets, value=T().visit(copy.deepcopy(st.value)))
-                for t in st.targets:
-                    if isinstance(t, ast.Name):
-                        env.pop(t.id, None)
-            out.append(st)
-        return out
-    new = ast.FunctionDef(name=fnode.name, args=fnode.args, body=go(list(fnode.body), {}), decorator_list=[], lineno=fnode.lineno, col_offset=0)
-    return ast.fix_missing_locations(new)
 
 
 def check(run):
